@@ -283,13 +283,28 @@ func (c *Cond) Broadcast() {
 
 // ---------------------------------------------------------------- WaitGroup
 
+// The real WaitGroup releases its waiters when the counter reaches zero and resets itself; a released
+// waiter that finds the group in use again when it resumes (an Add from zero, or a new waiter, got in
+// between) panics with "WaitGroup is reused before previous Wait has returned". That crash is part of
+// the semantics modelled here: a waiter registers (one step), blocks until the generation it registered
+// in has been released, and checks the group when it resumes.
 type WaitGroup struct {
-	obj vrt.Obj
-	n   int
+	obj     vrt.Obj
+	n       int
+	waiters int
+	gen     int
 }
 
 func (wg *WaitGroup) Add(d int) {
 	s := vrt.Cur()
+	if s == nil {
+		// outside any execution: single-threaded, only the counter matters
+		wg.n += d
+		if wg.n < 0 {
+			panic("sync: negative WaitGroup counter")
+		}
+		return
+	}
 	if s.IsAborting() {
 		return
 	}
@@ -301,6 +316,10 @@ func (wg *WaitGroup) Add(d int) {
 	if wg.n < 0 {
 		panic("sync: negative WaitGroup counter")
 	}
+	if wg.n == 0 && wg.waiters > 0 {
+		wg.waiters = 0
+		wg.gen++
+	}
 	s.Commit(vrt.KWgAdd, &wg.obj, true, uint64(wg.n))
 }
 
@@ -308,10 +327,33 @@ func (wg *WaitGroup) Done() { wg.Add(-1) }
 
 func (wg *WaitGroup) Wait() {
 	s := vrt.Cur()
+	if s == nil {
+		if wg.n != 0 {
+			panic("vsync: WaitGroup.Wait outside an execution would block for ever")
+		}
+		return
+	}
 	if s.IsAborting() {
 		return
 	}
-	s.Point(vrt.KWgWait, &wg.obj, func() bool { return wg.n == 0 })
+	s.Point(vrt.KWgWait, &wg.obj, nil)
+	if s.IsAborting() {
+		return
+	}
+	if wg.n == 0 {
+		s.Commit(vrt.KWgWait, &wg.obj, false, 0)
+		return
+	}
+	wg.waiters++
+	my := wg.gen
+	s.Commit(vrt.KWgWait, &wg.obj, true, uint64(wg.waiters))
+	s.Point(vrt.KWgWait, &wg.obj, func() bool { return wg.gen != my })
+	if s.IsAborting() {
+		return
+	}
+	if wg.n != 0 || wg.waiters != 0 {
+		panic("sync: WaitGroup is reused before previous Wait has returned")
+	}
 	s.Commit(vrt.KWgWait, &wg.obj, false, 0)
 }
 
@@ -390,6 +432,14 @@ type Map struct {
 
 func (m *Map) op(write bool) bool {
 	s := vrt.Cur()
+	if s == nil {
+		// outside any execution (sequential code called directly by an enumeration harness): single-threaded,
+		// the map simply works
+		if m.m == nil {
+			m.m = map[any]any{}
+		}
+		return true
+	}
 	if s.IsAborting() {
 		return false
 	}
